@@ -9,16 +9,25 @@
 // SAT-hard -- see contracts/kani/core/{pn_map,timestamp}.rs); packet sizes are symbolic; the path each packet is sent on and
 // the path each ACK arrives on are enumerated as separate harnesses (a symbolic index into the Path array did not finish).
 //
-// STATUS (measured at load average ~40): the Retry scenario verifies (symbolic execution 166 s alone / 750 s with two
-// neighbours, 746 k steps, 2.2 M variables).  The four ACK-processing scenarios are UNDECIDED: no result within
-// 3000 s at -j 3 and none within 36 min running alone (CBMC still in symbolic execution, 6.4 GB and growing): one
-// process_acks call drags in update_rtt, the ECN and MTU controllers, persistent-congestion calculation, PTO re-arming
-// and ~10 event builders per packet.  Stubbing packet::number::Map (as suggested) was not attempted: remove_range
-// returns `RemoveIter`, whose fields are private to s2n-quic-core, so a transport-side stub cannot construct it, and
-// the Map is not what crashes here (concrete packet numbers => concrete ring indices).  Observation for whoever continues:
-// with reviewer change (c) applied (manager replaced before the sum, i.e. the iteration runs over an EMPTY map) the same
-// Retry harness shrinks from 746 k to 45 k steps and fails its named obligation in 30 s -- iterating a non-empty
-// SentPackets (Iter::next: 123 of the 150 loop unwindings) is the dominant cost, and process_acks iterates it 4-6 times.  level=bounded: these are scenario proofs, not one-step inductive contracts.
+// STATUS
+//  * Retry scenario (`vq_c09_manager_retry_...`): verifies (symbolic execution 166 s alone, 746 k steps, 2.2 M variables).
+//  * The four whole-`process_acks` scenarios (`vq_c09_manager_reordered_ack_*`, `vq_c09_manager_loss_threshold_*`) are
+//    UNDECIDED and unregistered: no result in 3000 s at -j 3 under load ~40, none in 36 min alone under load, and none in
+//    45 min alone on the idle machine (load ~8; stopped at 6.0 GB, still in symbolic execution).  Root cause (measured,
+//    see the note at the end of contracts/kani/core/pn_map.rs): every "is this slot occupied" read of the sent-packet
+//    ring is symbolic for CBMC because Option<SentPacketInfo> is niche-encoded, so every loop over
+//    `sent_packets.iter()` / `remove_range()` is unrolled to the unwind bound (12 x 12), and process_acks walks the
+//    ring 4-6 times.  The occupancy-oracle stub for Iter::next / RemoveIter::next that would cure this cannot be
+//    installed: Kani 0.68 cannot resolve trait-impl methods of generic types as #[kani::stub] targets.
+//  * Instead the two branches those scenarios were written for are covered by FUNCTION-LEVEL harnesses on the real
+//    private functions, from the manager state process_acks hands them (bottom of this file):
+//      vq_c09_manager_new_acked_{same_path,two_paths}        process_new_acked_packets, `new_largest_packet` symbolic
+//                                                            (291 s / 189 s; reviewer change (a) caught in 84 s / 101 s)
+//      vq_c09_manager_detect_lost_{fast,slow}_path_packet    detect_lost_packets, threshold of the packet's own path
+//                                                            (91 s / 166 s; reviewer change (b) caught in 18 s / 34 s)
+//    What they do NOT cover: the glue inside process_acks between process_ack_range, update_congestion_control and
+//    these two functions (that newly_acked_packets is exactly what remove_range returned; that largest_acked_packet is
+//    updated before the call).
 use super::*;
 use s2n_quic_core::{
     connection, connection::limits::ANTI_AMPLIFICATION_MULTIPLIER, frame::ack_elicitation::AckElicitation, path::mtu,
@@ -455,4 +464,125 @@ fn vq_c09_manager_retry_discards_all_sent_initial_bytes() {
     assert!(m.sent_packets.is_empty() && m.largest_acked_packet.is_none() && !m.pto.is_armed() && !m.loss_timer.is_armed() && m.space == space, "C09/manager.on_retry_packet/manager_reset_to_new");
     kani::cover!(b0 == 1500 && b1 == 1, "reach:sizes");
     kani::cover!(true, "reach:end");
+}
+
+// =====================================================================================================================
+// Function-level harnesses for the two branches the ACK scenarios above were written for (reviewer changes (a), (b)).
+// The whole-`process_acks` scenarios do not finish because every read of a slot of the sent-packet ring is symbolic
+// for CBMC (niche-encoded Option<SentPacketInfo>, see contracts/kani/core/pn_map.rs) and `process_acks` walks the ring
+// 4-6 times.  The functions below are the REAL private functions of recovery::Manager, called directly on the manager
+// state that `process_acks` hands them.
+
+//@ harness props=C09,C10 tier=thorough level=bounded timeout=900 bound="single path; 2 newly acknowledged packets (1..=1500 bytes), nothing else outstanding; new_largest_packet symbolic"
+//@ fn recovery::Manager::process_new_acked_packets
+#[kani::proof]
+#[kani::unwind(12)]
+fn vq_c09_manager_new_acked_same_path() {
+    new_acked_packets_reach_on_ack(0, 0, 0);
+}
+
+fn acked_info(bytes: u16, on_path: u8) -> SentPacketInfo<()> {
+    SentPacketInfo::new(true, bytes as usize, ts(T0), AckElicitation::Eliciting, pid(on_path), Default::default(), transmission::Mode::Normal, ())
+}
+
+/// State handed to process_new_acked_packets by process_acks when the ACK covered everything outstanding:
+/// `newly_acked_packets` = the packets process_ack_range just removed from sent_packets (pn 1 on path p1, pn 3 on path
+/// p3), sent_packets empty, largest_acked = 5 already recorded.  `new_largest_packet` SYMBOLIC: the ACK may or may not
+/// carry a new largest acknowledged (reordered ACK frames).
+fn new_acked_packets_reach_on_ack(p1: u8, p3: u8, rx: u8) {
+    let space = PacketNumberSpace::ApplicationData;
+    let mut ctx: Ctx<VServer> = new_ctx(30, 30);
+    let mut m: Manager<VServer> = Manager::new(space);
+    let mut publisher = NoPub;
+    let mut rng = random::testing::Generator(0);
+    let (b1, b3) = (any_size(), any_size());
+    // the controllers counted these bytes in flight when the packets were sent
+    ctx.paths[p1 as usize].congestion_controller.bif += b1 as u64;
+    ctx.paths[p3 as usize].congestion_controller.bif += b3 as u64;
+    m.largest_acked_packet = Some(pn(space, 5));
+    m.time_of_last_ack_eliciting_packet = Some(ts(T0));
+    let mut newly_acked = SmallVec::<[PacketDetails<()>; ACKED_PACKETS_INITIAL_CAPACITY]>::new();
+    newly_acked.push((pn(space, 1), acked_info(b1, p1)));
+    newly_acked.push((pn(space, 3), acked_info(b3, p3)));
+    let new_largest_packet: bool = kani::any();
+    ctx.current = rx;
+    m.process_new_acked_packets(&newly_acked, new_largest_packet, ts(T0 + 12_000), None, &mut rng, &mut ctx, &mut publisher);
+
+    let sent_on = |i: u8| (if p1 == i { b1 as u64 } else { 0 }) + (if p3 == i { b3 as u64 } else { 0 });
+    let cc0 = &ctx.paths[0].congestion_controller;
+    let cc1 = &ctx.paths[1].congestion_controller;
+    assert!(cc0.acked_bytes == sent_on(0) && cc1.acked_bytes == sent_on(1), "C09/manager.process_new_acked_packets/every_newly_acked_packet_reaches_on_ack_regardless_of_new_largest");
+    assert!(cc0.bif == 0 && cc1.bif == 0 && !cc0.underflow && !cc1.underflow, "C09/manager.process_new_acked_packets/bytes_in_flight_zero_after_everything_acked_no_leak_no_double_count");
+    // the receiving path's packets are acknowledged in one on_ack call, every other path's packet in a call of its own
+    let on_rx = (p1 == rx) as u32 + (p3 == rx) as u32;
+    let rx_cc = &ctx.paths[rx as usize].congestion_controller;
+    let other_cc = &ctx.paths[1 - rx as usize].congestion_controller;
+    assert!(rx_cc.ack_calls == (on_rx > 0) as u32 && other_cc.ack_calls == 2 - on_rx, "C09/manager.process_new_acked_packets/on_ack_called_once_per_packet_or_once_for_the_receiving_path");
+    assert!(cc0.lost_bytes + cc1.lost_bytes + cc0.discarded_bytes + cc1.discarded_bytes == 0 && ctx.loss_calls == 0, "C09/manager.process_new_acked_packets/acked_packets_not_also_lost_or_discarded");
+    kani::cover!(new_largest_packet, "reach:ack_is_new_largest");
+    kani::cover!(!new_largest_packet, "reach:reordered_ack_not_new_largest");
+    kani::cover!(b1 == 1500 && b3 == 1, "reach:sizes");
+    kani::cover!(true, "reach:end");
+}
+
+//@ harness props=C09,C10 tier=thorough level=bounded timeout=900 bound="two paths: pn 1 sent on path 1, pn 3 on path 0, ACK received on path 0; 2 newly acknowledged packets (1..=1500 bytes), nothing else outstanding; new_largest_packet symbolic"
+//@ fn recovery::Manager::process_new_acked_packets
+#[kani::proof]
+#[kani::unwind(12)]
+fn vq_c09_manager_new_acked_two_paths() {
+    //   "C09/manager.process_new_acked_packets/every_newly_acked_packet_reaches_on_ack_regardless_of_new_largest"
+    //   "C09/manager.process_new_acked_packets/bytes_in_flight_zero_after_everything_acked_no_leak_no_double_count"
+    //   "C09/manager.process_new_acked_packets/on_ack_called_once_per_packet_or_once_for_the_receiving_path"
+    //   "C09/manager.process_new_acked_packets/acked_packets_not_also_lost_or_discarded"
+    // obligations: those of `new_acked_packets_reach_on_ack` above
+    new_acked_packets_reach_on_ack(1, 0, 0);
+}
+
+//@ harness props=C09 tier=thorough level=bounded timeout=900 bound="pn 1 (1..=1500 bytes) sent on path 0 (RTT 30 ms), ACK processed on path 1 (RTT 300 ms) 100 ms later; concrete times"
+//@ fn recovery::Manager::detect_lost_packets
+#[kani::proof]
+#[kani::unwind(12)]
+fn vq_c09_manager_detect_lost_fast_path_packet() {
+    detect_lost_uses_own_paths_threshold(0, 1);
+}
+
+/// State handed to detect_lost_packets: pn 1 (sent at T0 on path p1) still outstanding, pn 2 acknowledged (largest
+/// acked), the ACK is being processed on path rx, 100 ms after pn 1 was sent.  Path 0: RTT 30 ms, path 1: RTT 300 ms.
+fn detect_lost_uses_own_paths_threshold(p1: u8, rx: u8) {
+    let space = PacketNumberSpace::ApplicationData;
+    let mut ctx: Ctx<VServer> = new_ctx(30, 300);
+    let mut m: Manager<VServer> = Manager::new(space);
+    let mut publisher = NoPub;
+    let b1 = any_size();
+    send(&mut m, &mut ctx, &mut publisher, pn(space, 1), b1, p1, ts(T0));
+    m.largest_acked_packet = Some(pn(space, 2));
+    ctx.current = rx;
+    let (_persistent_congestion_duration, lost) = m.detect_lost_packets(ts(T0 + 100_000), &mut ctx, &mut publisher);
+    // RFC 9002 6.1.2 with the estimator of the path the packet was SENT on: 9/8 * 30 ms = 33.75 ms (<= 100 ms: lost),
+    // 9/8 * 300 ms = 337.5 ms (> 100 ms: not lost yet, timer at time_sent + 337.5 ms); distance 1 < kPacketThreshold
+    let expect_lost = p1 == 0;
+    assert!(lost.is_some() == expect_lost, "C09/manager.detect_lost_packets/time_threshold_is_that_of_the_path_the_packet_was_sent_on");
+    assert!((ctx.loss_calls == 1) == expect_lost && (ctx.loss_calls == 0) == !expect_lost, "C09/manager.detect_lost_packets/loss_reported_iff_lost");
+    assert!(!expect_lost || (ctx.last_lost == Some(pn(space, 1)) && lost.map(|r| (r.start(), r.end())) == Some((pn(space, 1), pn(space, 1)))), "C09/manager.detect_lost_packets/lost_range_is_the_lost_packet");
+    assert!(expect_lost || m.loss_timer.next_expiration() == Some(ts(T0 + 337_500)), "C09/manager.detect_lost_packets/loss_timer_at_time_sent_plus_own_paths_threshold");
+    assert!(!expect_lost || !m.loss_timer.is_armed(), "C09/manager.detect_lost_packets/no_loss_timer_when_everything_older_is_lost");
+    let cc = &ctx.paths[p1 as usize].congestion_controller;
+    assert!(cc.bif == b1 as u64 && cc.lost_bytes == 0, "C09/manager.detect_lost_packets/detection_alone_does_not_touch_bytes_in_flight");
+    kani::cover!(b1 == 1500, "reach:full_size_packet");
+    kani::cover!(true, "reach:end");
+}
+
+//@ harness props=C09 tier=thorough level=bounded timeout=900 bound="pn 1 (1..=1500 bytes) sent on path 1 (RTT 300 ms), ACK processed on path 0 (RTT 30 ms) 100 ms later; concrete times"
+//@ fn recovery::Manager::detect_lost_packets
+#[kani::proof]
+#[kani::unwind(12)]
+fn vq_c09_manager_detect_lost_slow_path_packet() {
+    //   "C09/manager.detect_lost_packets/time_threshold_is_that_of_the_path_the_packet_was_sent_on"
+    //   "C09/manager.detect_lost_packets/loss_reported_iff_lost"
+    //   "C09/manager.detect_lost_packets/lost_range_is_the_lost_packet"
+    //   "C09/manager.detect_lost_packets/loss_timer_at_time_sent_plus_own_paths_threshold"
+    //   "C09/manager.detect_lost_packets/no_loss_timer_when_everything_older_is_lost"
+    //   "C09/manager.detect_lost_packets/detection_alone_does_not_touch_bytes_in_flight"
+    // obligations: those of `detect_lost_uses_own_paths_threshold` above
+    detect_lost_uses_own_paths_threshold(1, 0);
 }
